@@ -183,7 +183,7 @@ func cmdCheck(args []string) int {
 		sx.Params = tier.Params
 		cfg := sx.HarnessCfg{Pkg: sx.RepoModule + "/" + h.Pkg, Func: h.Func, Workers: *workers, MaxPaths: tier.MaxPaths,
 			LoopBound: tier.LoopBound, MaxInstr: tier.MaxInstr, MaxDeviations: tier.Deviations,
-			SolverTimeoutMS: tier.TimeoutMS, Solver: h.Solver, SampleModels: tier.Samples, Seed: seed,
+			SolverTimeoutMS: tier.TimeoutMS, Solver: h.Solver, StopAfterViolations: 6, SampleModels: tier.Samples, Seed: seed,
 			DumpDir: filepath.Join(verifDir, ".work", "unknown")}
 		if tier.DeadlineS > 0 {
 			cfg.Deadline = time.Duration(tier.DeadlineS) * time.Second
